@@ -85,7 +85,88 @@ def closure_tokens(d):
                 L(x["attr"] for x in h.get("headers") or []) + L(x["attr"] for x in h.get("cookies") or []) + L(battrs) + L(resp) + \
                 L(e["name"] for e in h.get("errors") or []) + L(x for r in m.get("security") or [] for x in r["schemes"]) + \
                 [hx(m["result_view"]) if m.get("result_view") else "~"] + L(views)
+    avs = attr_views(d)
+    if avs:
+        out += ["V", str(len(avs))]
+        for owner, view, views in avs:
+            out += [hx(owner), hx(view)] + L(views)
     return " ".join(out)
+
+
+def reachable_types(d):
+    """names of the user types reachable from a method payload, result or error (goa validates — and generates — only those)"""
+    types = {t["name"]: t for t in d.get("types", [])}
+    seen = set()
+
+    def walk(att):
+        ty = (att or {}).get("type") or {}
+        for k in ("ref", "collection"):
+            n = ty.get(k)
+            if n and n in types and n not in seen:
+                seen.add(n)
+                walk(types[n].get("att"))
+        for k in ("array", "map_key", "map_elem"):
+            if ty.get(k):
+                walk(ty[k])
+        for f in (ty.get("object") or []) + (ty.get("one_of") or []):
+            walk(f["att"])
+    for s in d.get("services", []):
+        for m in s["methods"]:
+            walk(m.get("payload"))
+            walk(m.get("result"))
+            for e in (m.get("errors") or []) + (s.get("errors") or []):
+                walk(e.get("type"))
+    return seen
+
+
+def attr_views(d):
+    """(owner, view, views of the target type) for every attribute of result type that fixes its view on the declaration
+    or inside a view of the enclosing type — for the types a method reaches"""
+    types = {t["name"]: t for t in d.get("types", [])}
+    live = reachable_types(d)
+    out = []
+    for t in d.get("types", []):
+        if t["name"] not in live:
+            continue
+        fields = {f["name"]: f["att"] for f in ((t.get("att") or {}).get("type") or {}).get("object") or []}
+        for name, att in fields.items():
+            ty = att.get("type") or {}
+            target = ty.get("ref") or ty.get("collection")
+            if target in types and types[target].get("views") and att.get("view"):
+                out.append(("%s.%s" % (t["name"], name), att["view"], [v["name"] for v in types[target]["views"]]))
+        for v in t.get("views") or []:
+            for vf in v.get("attrs") or []:
+                att = fields.get(vf["name"]) or {}
+                ty = att.get("type") or {}
+                target = ty.get("ref") or ty.get("collection")
+                if vf.get("view") and target in types and types[target].get("views"):
+                    out.append(("%s.%s@%s" % (t["name"], vf["name"], v["name"]), vf["view"], [x["name"] for x in types[target]["views"]]))
+    return out
+
+
+def attr_view_mutations(d):
+    """a dangling view on the declaration of the first and of the last attribute that uses a result type used at least twice"""
+    types = {t["name"]: t for t in d.get("types", [])}
+    uses = {}
+    live = reachable_types(d)
+    for ti, t in enumerate(d.get("types", [])):
+        if t["name"] not in live:
+            continue
+        for fi, f in enumerate(((t.get("att") or {}).get("type") or {}).get("object") or []):
+            ty = f["att"].get("type") or {}
+            target = ty.get("ref")
+            if target in types and types[target].get("views"):
+                uses.setdefault(target, []).append((ti, fi))
+    out = []
+    for target, places in uses.items():
+        if len(places) < 2:
+            continue
+        for label, (ti, fi) in (("attribute-view-first-use", places[0]), ("attribute-view-last-use", places[-1])):
+            d2 = copy.deepcopy(d)
+            d2["types"][ti]["att"]["type"]["object"][fi]["att"]["view"] = "zz_view"
+            out.append((label, d2))
+        break
+    return out
 
 
 def mutations(d):
@@ -119,7 +200,7 @@ def mutations(d):
                 mut(lambda mm: mm["http"]["responses"].append({"code": 203, "tag": ["zz_missing", "x"]}), "response-tag")
             if si == 0 and mi == 0:
                 break
-    return out
+    return out + attr_view_mutations(d)
 
 
 def run(c):
@@ -278,8 +359,37 @@ def recursion_designs():
     return out
 
 
+def parent_designs():
+    """a child service under Parent(...): the parent's canonical endpoint has a path wildcard; the child method has a payload of every
+    shape (object with / without the inherited attribute, primitive, array, map, none) and a relative or an absolute route"""
+    P = lambda p: {"type": {"prim": p}}
+    obj = lambda fs, req=(): {"type": {"is_object": True, "object": [{"name": n, "att": a} for n, a in fs]}, "required": list(req)}
+    payloads = {
+        "object-with-parent-attribute": obj([("pid", P("String")), ("kid", P("Int"))], ["pid"]),
+        "object-without-parent-attribute": obj([("kid", P("Int"))]),
+        "string": P("String"),
+        "int": P("Int"),
+        "array": {"type": {"array": P("String")}},
+        "map": {"type": {"map_key": P("String"), "map_elem": P("Int")}},
+        "none": None,
+    }
+    out = []
+    for pname, payload in payloads.items():
+        for route in ("/kids", "/kids/{kid}", "//abs/kids"):
+            if "{kid}" in route and not (payload and (payload.get("type") or {}).get("object")):
+                continue
+            parent = {"name": "parents", "path": "/parents", "methods": [
+                {"name": "show", "payload": obj([("pid", P("String"))], ["pid"]), "http": {"verb": "GET", "path": "/{pid}"}}]}
+            m = {"name": "list", "http": {"verb": "POST", "path": route}}
+            if payload is not None:
+                m["payload"] = payload
+            child = {"name": "kids", "parent": "parents", "methods": [m]}
+            out.append(("parent/%s/%s" % (pname, route.strip("/").replace("/", "_")), {"api": "par", "services": [parent, child]}))
+    return out
+
+
 def recursion_part(c, work):
-    fam = recursion_designs()
+    fam = recursion_designs() + parent_designs()
 
     def real(k):
         rep = designs.run_design(json.dumps(fam[k][1]), os.path.join(work, "r%d" % k), timeout=60)
@@ -292,6 +402,10 @@ def recursion_part(c, work):
         c.hist("recursive_types", "crash" if crash else ("accepted" if rep.get("accepted") else "refused"))
         if crash:
             kind = "endless-recursion" if "stack overflow" in str(crash) else ("time-out" if "timeout" in str(crash) else "panic")
+            if label.startswith("parent/"):
+                c.fail("c12/parent-service-%s:%s" % (kind, label.split("/")[1]), "evaluating a design with a child service under Parent(...) (%s) does not return: %s" % (label, str(crash)[-300:]),
+                       input={"seed": c.seed, "family": label}, design=d)
+                continue
             c.fail("c12/recursive-type-%s:%s" % (kind, label.split("/")[1]), "evaluating a design whose type reaches itself (%s) does not return: %s" % (label, str(crash)[-300:]),
                    input={"seed": c.seed, "recursion": label}, design=d)
 
@@ -300,7 +414,7 @@ def closure_part(c, work, nd):
     drv = os.path.join(LEAN, ".lake/build/bin/drv_closure")
     cases = []
     for i in range(nd):
-        for flags in (designs.flags_for(i, allow_nested=False), ["-views-design"] if i % 5 == 0 else None):
+        for flags in (designs.flags_for(i, allow_nested=False), ["-views-design"] if i % 2 == 0 else None):
             if flags is None:
                 continue
             try:
